@@ -3,6 +3,8 @@ import AndaVerif.Proofs.OMapScan
 import AndaVerif.Proofs.BTreeApi
 import AndaVerif.Proofs.BTreeRefine
 import AndaVerif.Proofs.BTreeFlush
+import AndaVerif.Proofs.Prefix
+import AndaVerif.Proofs.BTreeVol
 /-
 Property C10 — the B-tree index equals an ordered multimap (theorems over `Model/OMap`,
 `Model/RangeQuery`, `Model/BTree`, `Model/BTreeFlush`; helper lemmas live in `Proofs/`).
@@ -101,6 +103,50 @@ example : (Ref.run (Ref.rinit false) [.insert 1 5, .insert 2 5, .remove 1 5, .ge
     = [.ok true, .ok true, .removed true, .posting (some [2]), .keys [5]] := by decide
 
 -- ------------------------------------------------------------------------------------------------
+-- prefix queries (string-keyed index)
+-- ------------------------------------------------------------------------------------------------
+open AndaVerif.Prefix in
+/-- `prefix_query_with`: on a byte-wise lexicographically ordered key set, "walk from the prefix
+upwards and stop at the first key that does not start with it" visits exactly the entries whose key
+starts with the prefix; with a callback that asks to stop at its `n`-th invocation the answer is
+built from the first `max n 1` of them, unbounded from all of them. -/
+theorem prefix_is_filter {ρ : Type} (m : SMap) (h : SSortedLex m) (pre : SKey)
+    (g : SKey → List Nat → Option ρ) (n : Nat) :
+    prefixQuery m pre (pcbStop (some n) g) 0
+        = ((m.filter (fun e => pre.isPrefixOf e.1)).take (max n 1)).filterMap (fun e => g e.1 e.2)
+    ∧ prefixQuery m pre (pcbStop none g) 0
+        = (m.filter (fun e => pre.isPrefixOf e.1)).filterMap (fun e => g e.1 e.2) := by
+  unfold prefixQuery
+  split
+  · rename_i he
+    have : m = [] := by simpa using he
+    subst this; simp
+  · rw [prefix_block m h pre, sWalk_pcbStop_some, sWalk_pcbStop_none]
+    simp
+
+open AndaVerif.Prefix in
+/-- the string-keyed map stays ordered under every sequence of pair insertions and removals -/
+theorem prefix_index_sorted (ops : List (Bool × SKey × Nat)) :
+    SSortedLex (ops.foldl (fun m op => if op.1 then sIns op.2.1 op.2.2 m else sDel op.2.1 op.2.2 m) []) := by
+  suffices ∀ (ops : List (Bool × SKey × Nat)) (m : SMap), SSortedLex m →
+      SSortedLex (ops.foldl (fun m op => if op.1 then sIns op.2.1 op.2.2 m else sDel op.2.1 op.2.2 m) m) from
+    this ops [] (by simp [SSortedLex])
+  intro ops
+  induction ops with
+  | nil => intro m h; exact h
+  | cons op ops ih =>
+    intro m h
+    simp only [List.foldl_cons]
+    apply ih
+    split
+    · exact sorted_sIns _ _ m h
+    · exact sorted_sDel _ _ m h
+
+open AndaVerif.Prefix in
+example : prefixQuery [([97], [1]), ([97, 98], [2, 3]), ([97, 98, 99], [4]), ([97, 99], [5]), ([98], [6])] [97, 98]
+    (pcbStop none (pemit false)) 0 = [([97, 98], [2, 3]), ([97, 98, 99], [4])] := by decide
+
+-- ------------------------------------------------------------------------------------------------
 -- persistence
 -- ------------------------------------------------------------------------------------------------
 open AndaVerif.BTreeFlush
@@ -133,5 +179,34 @@ example : flushShape exD exW = true ∧ flushStrict exD exW = true ∧ commitIdx
 example : (List.range 5).map (fun j => load (applyAll exD (exW.take j)))
     = [some [(1, [7]), (4, [8])], some [(1, [7]), (4, [8])], some [(1, [7]), (4, [8])],
        some [(1, [7]), (4, [8, 9])], some [(1, [7]), (4, [8, 9])]] := by decide
+
+/-- The flush algorithm itself (`Model/BTreeVol`: early no-op, forced version bump, generation =
+metadata version, new manifest, obsolete list — assembled **in the order extracted from the current
+source**, `Gen.BTreeOrder.flushOrder`), for every in-memory bucket table and every content the
+buckets may serialise: if the committed store references no object of the generation about to be
+used (all committed generations are older) and a committed index never commits an empty manifest,
+then every prefix of the writes loads to the last committed contents (up to and including the last
+bucket PUT) or to the contents of the completed flush (from the metadata PUT on). -/
+theorem flush_model_crash_safe (D : Durable) (V : Vol)
+    (hne : (V.hasDirty || V.pending) = true)
+    (hgen : ∀ m, D.md = some m → ∀ o ∈ referenced m, o.2 < V.generation)
+    (hcov : V.newManifest = [] → V.committed = []) (j : Nat) :
+    load (applyAll D (V.flushWrites.take j)) =
+      if j ≤ (V.buckets.filter (·.dirty)).length then load D
+      else load (applyAll D (V.flushWrites.take ((V.buckets.filter (·.dirty)).length + 1))) := by
+  have h := flushWrites_shape D V hne hgen hcov
+  have := load_prefix D V.flushWrites h.1 j
+  rw [h.2] at this
+  exact this
+
+/-- … and a flush with nothing dirty and no pending version writes nothing. -/
+theorem flush_model_noop (V : Vol) (h : (V.hasDirty || V.pending) = false) : V.flushWrites = [] := by
+  cases h1 : V.hasDirty <;> cases h2 : V.pending <;> simp [h1, h2, Vol.flushWrites] at h ⊢
+
+def exV : Vol :=
+  { buckets := [⟨0, true, [(1, [7])]⟩, ⟨1, true, [(4, [8, 9])]⟩], committed := [(0, 3)],
+    version := 5, savedVersion := 3, maxBucket := 1, insertCount := 3, deleteCount := 0, queryCount := 0 }
+example : exV.flushWrites = exW := by decide
+example : (exV.hasDirty || exV.pending) = true ∧ exV.generation = 5 ∧ exV.newManifest ≠ [] := by decide
 
 end AndaVerif.C10
